@@ -142,3 +142,16 @@ contract("C12.from_hed_strings", file="hed/models/hed_string.py", func="HedStrin
                                              " and all(result._from_strings[j] is hed_strings[j] for j in range(len(hed_strings)))",
              "C12.join.is_a_new_object": "fresh(result)",
          })
+
+# C07/C12 "each labelled with the ... row ... and the column it came from": the context value pushed is kept as given - also 0 (the first column of
+# a header-less spreadsheet, row 0) and '' ; only a missing value (None) is replaced by the neutral value of its kind
+class_model("ErrorHandlerStack", {"error_context": "Opaque"})
+contract("C12.push_error_context", file="hed/errors/error_reporter.py", func="ErrorHandler.push_error_context",
+         params={"self": "ErrorHandlerStack", "context_type": "Str", "context": "Opt[Int]"}, returns=None, enc="native",
+         self_class="ErrorHandlerStack", also=["C07"],
+         ghost={"no_frame": True, "init": {"pushes": "0"},
+                "update": [("self.error_context.append((context_type, context))", "pushed = context"),
+                           ("self.error_context.append((context_type, context))", "pushes = pushes + 1")]},
+         ensures={"C12.context.given_value_is_kept_also_zero": "implies(context is not None, pushes == 1 and pushed == context)",
+                  "C12.context.missing_value_is_neutral": "implies(context is None, pushes == 1 and (pushed == 0 or pushed == ''))"},
+         assume=["only numeric context values (row / column numbers) are covered by the parameter type; the stack itself is opaque"])
